@@ -1011,3 +1011,38 @@ def grouping_arith(parent, child, side):
         if w:
             return w
     return None
+
+
+def embedding_text(cls_short):
+    """C10: the text of a statement embedded as a sub-query is its stand-alone text in brackets (or the same text for
+    statements that ignore the flag); with the alias requested it is the stand-alone text plus the alias"""
+    from . import PostgreSQLQuery, Table, queries_universe
+    t = Table("t")
+    extra = [("pg.delete_returning", PostgreSQLQuery.from_(t).delete().where(t.a == 1).returning(t.id)),
+             ("pg.insert_returning", PostgreSQLQuery.into(t).insert(1).returning("*")),
+             ("pg.insert_select_conflict", PostgreSQLQuery.into(t).from_(Table("u")).select("a").on_conflict("a").do_nothing())]
+    name = cls_short.split(".")[-1]
+    for label, q in queries_universe() + extra:
+        if type(q).__name__ != name:
+            continue
+        qc = vars(q).get("base_query", q)
+        qc = getattr(type(qc), "QUERY_CLS", None)
+        if qc is None:
+            continue
+        ctx0 = qc.SQL_CONTEXT
+        try:
+            plain = q.get_sql(ctx0.copy(subquery=False, with_alias=False))
+            sub = q.get_sql(ctx0.copy(subquery=True, with_alias=False))
+        except Exception:
+            continue
+        if plain and sub not in (plain, "(" + plain + ")"):
+            return f"{label}: stand-alone {plain!r}, embedded as a sub-query {sub!r}"
+        q2 = q.as_("zz") if hasattr(q, "as_") else q
+        try:
+            plain = q2.get_sql(ctx0.copy(subquery=True, with_alias=False))
+            ali = q2.get_sql(ctx0.copy(subquery=True, with_alias=True))
+        except Exception:
+            continue
+        if plain and not (ali == plain or (ali.startswith(plain) and ali[len(plain):].strip(' "`') in ("zz", "AS zz", 'AS "zz'))):
+            return f"{label}: without alias {plain!r}, with alias {ali!r}"
+    return None
